@@ -1,6 +1,6 @@
 From Coq Require Import ZArith List Bool Reals Lra.
 From Flocq Require Import Core BinarySingleNaN.
-Require Import GV.FloatBase GV.FloatLemmas GV.AngleM GV.AngleProofs GV.GeonumM GV.GeonumProofs GV.TraitsM GV.TraitsProofs GV.BoundProofs.
+Require Import GV.FloatBase GV.FloatLemmas GV.AngleM GV.AngleProofs GV.GeonumM GV.GeonumProofs GV.TraitsM GV.TraitsProofs GV.BoundProofs GV.NewProofs GV.CtorProofs GV.ClosureProofs GV.PiBounds GV.TrigProofs GV.DotValue GV.ProdProofs GV.SumUpper GV.DistValue GV.FieldProofs.
 Import ListNotations.
 Open Scope R_scope.
 Require Import GV.Properties.C19.
@@ -25,3 +25,28 @@ Check C19_tanh_bound : forall (L : libm) g, tanh_range L -> fin (mag g) -> Rabs 
 Print Assumptions C19_tanh_bound.
 Check C19_range_hyps_inhabited : exists L, cos_range L /\ tanh_range L.
 Print Assumptions C19_range_hyps_inhabited.
+Check C19_sigmoid_bound : forall (L : libm) g, exp_range L -> fin (mag g) -> 0 <= R_ (mag g) <= bpow radix2 1000 ->
+  let r := activate L g Sigmoid in
+  ang r = ang g /\ fin (mag r) /\ 0 <= R_ (mag r) <= R_ (mag g).
+Print Assumptions C19_sigmoid_bound.
+Check C19_exp_range_inhabited : exists L, exp_range L.
+Print Assumptions C19_exp_range_inhabited.
+Check C19_inverse_field_value : forall (L : libm) (up : R) charge distance power a constant, 0 <= up <= / 200 ->
+  fin (powF L (mag distance) (mag power)) ->
+  Rabs (R_ (powF L (mag distance) (mag power)) - Rpower (R_ (mag distance)) (R_ (mag power)))
+    <= up * Rpower (R_ (mag distance)) (R_ (mag power)) ->
+  fin (mag (inverse_field L charge distance power a constant)) ->
+  bpow radix2 (-500) <= R_ (mag constant) * R_ (mag charge) ->
+  bpow radix2 (-500) <= R_ (mag constant) * R_ (mag charge) / Rpower (R_ (mag distance)) (R_ (mag power)) ->
+  let ideal := R_ (mag constant) * R_ (mag charge) / Rpower (R_ (mag distance)) (R_ (mag power)) in
+  Rabs (R_ (mag (inverse_field L charge distance power a constant)) - ideal)
+    <= (up + 3 * / 4503599627370496) * (1 + / 25) * ideal.
+Print Assumptions C19_inverse_field_value.
+Check C19_wire_field_value : forall r current permeability,
+  fin (mag (wire_magnetic_field r current permeability)) ->
+  bpow radix2 (-500) <= R_ (mag permeability) * R_ (mag current) ->
+  bpow radix2 (-500) <= R_ (mag r) <= bpow radix2 500 ->
+  bpow radix2 (-500) <= R_ (mag permeability) * R_ (mag current) / (2 * Rtrigo1.PI * R_ (mag r)) ->
+  let ideal := R_ (mag permeability) * R_ (mag current) / (2 * Rtrigo1.PI * R_ (mag r)) in
+  Rabs (R_ (mag (wire_magnetic_field r current permeability)) - ideal) <= 42 / 10 * / 4503599627370496 * ideal.
+Print Assumptions C19_wire_field_value.
